@@ -53,8 +53,10 @@ from aiokafka import errors as Errors
 
 async def main():
     bad = []
+    # the body may be left by any exception: an ordinary one, the cancellation of the task (wait_for timeout, shutdown), a
+    # KeyboardInterrupt / SystemExit
     for state in (TransactionState.IN_TRANSACTION, TransactionState.ABORTABLE_ERROR, TransactionState.FATAL_ERROR):
-        for with_exc in (True, False):
+        for with_exc in (ValueError, asyncio.CancelledError, KeyboardInterrupt, GeneratorExit, False):
             tm = TransactionManager("tid", 1000)
             tm.set_pid_and_epoch(1, 0)
             tm.begin_transaction()
@@ -71,7 +73,7 @@ async def main():
             p.abort_transaction, p.commit_transaction = abort_transaction, commit_transaction
             ctx = TransactionContext(p)
             if with_exc:
-                await ctx.__aexit__(ValueError, ValueError("body failed"), None)
+                await ctx.__aexit__(with_exc, with_exc("body left"), None)
                 want = [] if state is TransactionState.FATAL_ERROR else ["abort"]
             else:
                 if state is not TransactionState.IN_TRANSACTION:
@@ -79,8 +81,8 @@ async def main():
                 await ctx.__aexit__(None, None, None)
                 want = ["commit"]
             if calls != want:
-                bad.append("context left %s an exception in state %s: the producer was asked to %r, expected %r"
-                           % ("with" if with_exc else "without", state.name, calls, want))
+                bad.append("context left %s as exception in state %s: the producer was asked to %r, expected %r"
+                           % ("with " + with_exc.__name__ if with_exc else "without", state.name, calls, want))
     return bad
 bad = asyncio.run(main())
 VIOLATED = bool(bad); DETAIL = repr(bad)
